@@ -6,7 +6,7 @@ use proptest::strategy::Strategy;
 use serde::{Deserialize, Serialize};
 use serde_json::json;
 
-pub const RULE: &str = "case = hash size in {0,1,2,3,16 MB} (thorough: also 64) and a list of 1-7 searches run one after the other on one PersistentState; each search = (non-terminal legal position with game history: walks from repository roots, forced-mate themes so that scores jump to mate at depth >= 5, heavy material, tiny trees) x (depth 1..D | movetime 1-40 ms | clock tuples incl. 0, one-sided clocks, increments and moves-to-go >= 1, optionally with a depth). The earlier searches are of related or unrelated positions. A 'long session' part runs 300 depth-1/2 searches on one state (crosses the 8-bit search counter). Oracle per search: the call returns (watchdog), does not panic (checked build: overflow, out-of-range index and debug assertions are panics), and the move is in the reference legal set. The same parts run again in the optimised 'fast' profile, and the same kind of case goes through the shipped binary ('position ..', 'go ..': one legal bestmove each, no panic-hook output, exit status 0). Non-trivial = search with >= 1 earlier search on its tables, or depth >= 5, or a mate score reported; distinct by (fen, moves, limit, hash, index).";
+pub const RULE: &str = "case = hash size in {0,1,2,3,16 MB} (thorough: also 64) and a list of 1-7 searches run one after the other on one PersistentState; each search = (non-terminal legal position with game history: walks from repository roots, forced-mate themes so that scores jump to mate at depth >= 5, heavy material, tiny trees) x (depth 1..D | movetime 1-40 ms | clock tuples incl. 0, one-sided clocks, increments and moves-to-go >= 1, optionally with a depth). The earlier searches are of related or unrelated positions. A 'deep_iterations' part searches fortress positions (locked pawn chains; pawnless positions two plies before the fifty-move limit) under 150-500 ms so that iterative deepening reaches its last iterations (depth 200+). A 'long session' part runs 300 depth-1/2 searches on one state (crosses the 8-bit search counter). Oracle per search: the call returns (watchdog), does not panic (checked build: overflow, out-of-range index and debug assertions are panics), and the move is in the reference legal set. The same parts run again in the optimised 'fast' profile, and the same kind of case goes through the shipped binary ('position ..', 'go ..': one legal bestmove each, no panic-hook output, exit status 0). Non-trivial = search with >= 1 earlier search on its tables, or depth >= 5, or a mate score reported; distinct by (fen, moves, limit, hash, index).";
 
 #[derive(Serialize, Deserialize, Clone, Debug)]
 pub enum Case {
@@ -120,7 +120,7 @@ fn run_list(hash_mb: usize, searches: &[SearchSpec], st: &mut Stats) -> Result<(
         let deep = matches!(spec.limit, Limit::Depth(d) if d >= 5) || out.infos.len() >= 5;
         st.class(match spec.limit {
             Limit::Depth(_) => "limit:depth",
-            Limit::MoveTime(_) => "limit:movetime",
+            Limit::MoveTime(_) | Limit::DepthUnderMoveTime { .. } => "limit:movetime",
             Limit::Clocks { .. } => "limit:clocks",
         });
         if out.infos.is_empty() {
@@ -165,6 +165,7 @@ fn run_list_binary(hash_mb: usize, searches: &[SearchSpec], st: &mut Stats) -> R
         let go = match &spec.limit {
             Limit::Depth(d) => format!("go depth {d}"),
             Limit::MoveTime(t) => format!("go movetime {t}"),
+            Limit::DepthUnderMoveTime { depth, ms } => format!("go movetime {ms} depth {depth}"),
             Limit::Clocks { wtime, btime, winc, binc, movestogo, depth } => {
                 let mut g = "go".to_string();
                 for (k, v) in [("wtime", wtime), ("btime", btime), ("winc", winc), ("binc", binc), ("movestogo", movestogo)] {
@@ -296,12 +297,44 @@ pub fn run(run: &mut Run) -> &'static str {
             Case::Explicit { hash_mb, searches } => run_list_binary(*hash_mb, searches, st),
         });
     }
+    // last iterations: positions whose tree is tiny (fortresses, two plies before the fifty-move limit)
+    // searched under a time limit, so that iterative deepening reaches depth 200+ within the limit
+    let cases = tier.pick(300, 6_000);
+    let strat = tape(12..40).prop_map(Case::Tape);
+    run.proptest_part("deep_iterations", RULE, strat, cases, move |c: &Case, st: &mut Stats| match c {
+        Case::Tape(data) => {
+            let mut t = Tape::new(data);
+            let Some(p) = fortress_theme(&mut t) else {
+                st.discard();
+                return Ok(());
+            };
+            if p.legal_moves().is_empty() {
+                st.discard();
+                return Ok(());
+            }
+            let spec = SearchSpec { fen: p.to_fen(), moves: vec![], limit: Limit::MoveTime([150u32, 300, 500][t.pick(3)]) };
+            let state_mb = [1usize, 16][t.pick(2)];
+            let r = run_list(state_mb, std::slice::from_ref(&spec), st);
+            // how deep did it get?
+            if r.is_ok() {
+                if let Some((_, game)) = build(&spec) {
+                    let mut state = PersistentState::new(state_mb);
+                    if let Ok(out) = run_search(&game, &mut state, &spec.limit, 0) {
+                        let d = out.infos.last().map_or(0, |i| i.depth);
+                        st.class(if d >= 220 { "reached_depth_220_or_more" } else if d >= 64 { "reached_depth_64..219" } else { "stayed_below_depth_64" });
+                    }
+                }
+            }
+            r
+        }
+        Case::Explicit { hash_mb, searches } => run_list(*hash_mb, searches, st),
+    });
     let sessions = tier.pick(32, 320);
     let strat = tape(24..60).prop_map(|tape| Session { tape });
     run.proptest_part("long_session", RULE, strat, sessions, long_session);
     if let Ok(bin) = std::env::var("VERIF_FAST_BIN") {
         if profile_name() == "checked" && run.only_parts.is_empty() {
-            run_sub_process(run, &bin, &["searches", "long_session"]);
+            run_sub_process(run, &bin, &["searches", "long_session", "deep_iterations"]);
         }
     }
     RULE
